@@ -442,6 +442,22 @@ def r12(ctx, rep):
               file=f["file"], line=site["l"], fn=f["path"])
 
 
+def can_materialize_shape(syn):
+    """(ok, what was found) - name-independent: locals are inlined, closure parameters numbered"""
+    import alpha
+    cm = syn.fn("anchor::can_materialize", crate="prqlc")
+    A = alpha.Inliner(cm)
+    t = A.tail()
+    if t is None or t.get("k") != "tuple" or len(t["e"]) != 2:
+        return False, "the function does not end in a pair (can, max_complexity)"
+    first, second = A.show(t["e"][0]), A.show(t["e"][1])
+    prm = [show(x.get("pat", x)).split(":")[0].strip() if isinstance(x, dict) else str(x).split(":")[0].strip() for x in cm.get("params", [])]
+    compute = prm[0] if prm else "compute"
+    want_fold = f".filter(|_c0| (_c0.col == {compute}.id)).fold(Complexity::highest(), |_c0, _c1| Complexity::min(_c0, _c1.max_complexity))"
+    ok = first == f"(infer_complexity({compute}) <= {second})" and second.endswith(want_fold)
+    return ok, f"found `{first[:200]}`"
+
+
 def r13(ctx, rep):
     rep.rule("C07.R13", "no window function or aggregate is nested in another; a CASE never loses all its WHEN branches", floor=3)
     syn = ctx.syn
@@ -467,16 +483,10 @@ def r13(ctx, rep):
         rep.check(ok, f"complexity:inputs-of:{mine}", f"a compute of complexity {mine} may inline inputs up to `{allowed}`: SQL does not allow a window function or an aggregate inside the argument of "
                   f"another (`SUM(RANK() OVER ())`), so the limit must be below Windowed", file=f["file"], line=m["l"], fn=f["path"])
     # (a') can_materialize: a compute is inlined only if its complexity is at most the MINIMUM any consumer allows
+    okc, why = can_materialize_shape(syn)
     cm = syn.fn("anchor::can_materialize", crate="prqlc")
-    locs = {show(n["pat"]): n["init"] for n in cm["body"]["s"] if n.get("k") == "local" and n.get("init") is not None}
-    req = locs.get("required")
-    fold = [n for n in walk(req)] if req is not None else []
-    okf = any(n.get("k") == "mcall" and n["m"] == "fold" and n["a"] and show(n["a"][0]) == "Complexity::highest()" and "Complexity::min(c, r.max_complexity)" in show(n["a"][1], maxdepth=8) for n in fold)
-    okfilter = any(n.get("k") == "mcall" and n["m"] == "filter" and "r.col == compute.id" in show(n["a"][0], maxdepth=8) for n in fold)
-    rep.check(okf and okfilter, "complexity:min-over-consumers", "`required` must be the minimum of max_complexity over the requirements OF THIS COLUMN, starting from the highest complexity",
-              file=cm["file"], line=cm["l"], fn=cm["path"])
-    rep.check(show(locs.get("can_materialize")) == "(complexity <= required)" or show(locs.get("can_materialize")) == "complexity <= required", "complexity:compare",
-              f"a compute may be inlined only when `complexity <= required`; found `{show(locs.get('can_materialize'))}`", file=cm["file"], line=cm["l"], fn=cm["path"])
+    rep.check(okc, "complexity:can_materialize", "can_materialize must return `infer_complexity(compute) <= m` where m is the minimum of max_complexity over the requirements OF THIS COLUMN, "
+              f"starting from the highest complexity ({why})", file=cm["file"], line=cm["l"], fn=cm["path"])
     # (b) static_eval_case: the list that is tested for "only a literal-true branch is left" is the list that is emitted
     c = syn.fn("static_eval::static_eval_case", crate="prqlc")
     emitted = None
